@@ -230,6 +230,15 @@ func ClientCheck(sc sim.CScenario, h *sim.CHistory) []Problem {
 		case "oncb-exit":
 			cbExit[e.ID]++
 			lastCBExit = e.Seq
+		case "isstopped":
+			switch {
+			case e.Class == "at-end" && e.Data != "true":
+				add("C05/isstopped", "after Close had returned IsStopped reports %s", e.Data)
+			case e.Class == "before-epilogue" && stopSeq < 0 && e.Data != "false":
+				add("C05/isstopped", "IsStopped reports %s although nothing has stopped the client", e.Data)
+			case e.Class == "before-epilogue" && stopSeq >= 0 && len(quiesces) > 0 && quiesces[len(quiesces)-1] > stopSeq && e.Data != "true":
+				add("C05/isstopped", "IsStopped reports %s at a quiescent point after the client was stopped (#%d)", e.Data, stopSeq)
+			}
 		case "closeret":
 			closeRets = append(closeRets, e)
 			if lastCBExit > e.Seq {
@@ -288,6 +297,17 @@ func ClientCheck(sc sim.CScenario, h *sim.CHistory) []Problem {
 		}
 	}
 	for _, c := range order {
+		if bp := stepOf[c.op].BadParams; bp != "" {
+			// parameters the client must refuse: an error at once, nothing on the wire
+			name := fmt.Sprintf("operation #%d[%d] (%s, %s parameters)", c.op, c.i, c.kind, bp)
+			if c.recvSeq >= 0 {
+				add("C05/refused-operation-transmitted", "%s was transmitted", name)
+			}
+			if c.i == 0 && c.retSeq >= 0 && (c.class == "result" || c.class == "canceled" || c.class == "deadline") {
+				add("C05/refused-operation-outcome", "%s returned %s %s, want an error about its parameters", name, c.class, c.data)
+			}
+			continue
+		}
 		if c.note || c.retSeq < 0 {
 			continue
 		}
